@@ -18,14 +18,16 @@ flt = args[0] if args else ''
 OWN = {
     'c02-once-set-by-vendor': ['C02'], 'c02-spec-edits-after-device': ['C02'], 'c02-spec-edits-per-device': ['C02'],
     'c04-apply-inside-loop': ['C04'], 'c04-return-on-first-miss': ['C04'],
-    'c10-remove-then-rename': ['C10'], 'c10-temp-with-spec-extension': ['C10'], 'c10-write-in-place': ['C10'],
+    'c10-temp-with-spec-extension': ['C10'], 'c10-write-in-place': ['C10'],
     'c11-drop-rename-from-mask': ['C11'],
+    'c11-ext-filter-on-removals': ['C11'],  # was unobservable until directory renames joined C11's alphabet: the event of the directory itself has no Spec extension
     'c12-query-without-lock': ['C12'], 'c12-watcher-refresh-without-mutex': ['C12'],
     'c16-no-slash-replacement': ['C16'], 'c16-remove-forgets-default-ext': ['C16'],
     'c20-keep-old-direrrors': ['C20'], 'c20-no-watch-stop': ['C20'], 'c20-revert-stale-event-fix': ['C20'],
 }
 # patches that do NOT break the property (equivalent or unobservable): the checks must stay silent
-SILENT = {'c10-no-cleanup-on-failed-rename': ['C10'], 'c11-ext-filter-on-removals': ['C11'], 'c12-publish-maps-before-scan': ['C12']}
+SILENT = {'c10-no-cleanup-on-failed-rename': ['C10'], 'c10-remove-then-rename': ['C10'],  # 'no file' is an allowed reader's view
+           'c12-publish-maps-before-scan': ['C12']}
 
 work = []  # (name, patch, checks, expect_violation)
 for d in sorted(glob.glob(ROOT + '/seeded/*/meta.json')):
